@@ -1,4 +1,5 @@
 import RzilVerif.Model.Checks
+import RzilVerif.Lemmas.HeapLinear
 /-!
 # C12 — IL node ownership is linear
 
@@ -58,6 +59,49 @@ theorem protocol_counts (x : String) (n : Nat) :
   constructor
   · simp [countUses, List.filter_cons, List.filter_replicate]
   · simp [countUses, List.filter_cons, List.filter_replicate]
+
+/-! ## What linearity buys: no double free, no leak (heap model `Model/Heap.lean`) -/
+
+theorem run_vars (items : List Item) : (run items).nodes.map HNode.var = (ilDecls items).map Prod.fst := by
+  rw [← run_nodes, List.map_map]; rfl
+
+/-- Under distinct declared names the model's consumption count of a node is the checker's count:
+    raw uses, plus DUP'ed uses for an effect. -/
+theorem run_consumptions (items : List Item) (hdistinct : ilNamesDistinct items) (n : HNode)
+    (hn : n ∈ (run items).nodes) :
+    (run items).consumptions n =
+      countUses n.var false (allUses items) + (if n.eff then countUses n.var true (allUses items) else 0) := by
+  have hd : ((run items).nodes.map HNode.var).Nodup := by rw [run_vars]; exact hdistinct
+  rw [consumptions_eq _ hd n hn, run_moves]
+
+/-- An empty `linearProblems` report: every node owned by a declared variable is consumed exactly once. -/
+theorem linear_consumed_once (b : Body) (hdistinct : ilNamesDistinct b.items) (h : linearProblems b = [])
+    (n : HNode) (hn : n ∈ (run b.items).nodes) : (run b.items).consumptions n = 1 := by
+  rw [linearProblems_eq] at h
+  have hdecl := declProblems_nil _ _ (List.append_eq_nil_iff.mp h).1
+  have hk : (n.var, n.eff) ∈ ilDecls b.items := by
+    rw [← run_nodes]; exact List.mem_map.mpr ⟨n, hn, rfl⟩
+  have := hdecl _ _ hk
+  rw [run_consumptions _ hdistinct n hn]
+  cases hne : n.eff
+  · simpa using this.1 hne
+  · simpa using this.2 hne
+
+/-- **C12, the "consequently"**: if the counting checker reports nothing (and the declared IL names are
+    pairwise distinct, which `wfBody` checks), running the body consumes no node twice and leaves no node
+    unconsumed. -/
+theorem linear_no_double_free_no_leak (b : Body) (hdistinct : ilNamesDistinct b.items)
+    (h : linearProblems b = []) : NoDoubleFree (run b.items) ∧ NoLeak (run b.items) :=
+  ⟨fun n hn => Nat.le_of_eq (linear_consumed_once b hdistinct h n hn),
+   fun n hn => Nat.le_of_eq (linear_consumed_once b hdistinct h n hn).symm⟩
+
+/-- The parameter clause: a borrowed pure parameter is passed raw (consumed by a constructor) at most once. -/
+theorem linear_borrowed_param (b : Body) (h : linearProblems b = []) (f : String) (ps : List Param)
+    (hh : b.header = some (f, ps)) (p : Param) (hp : p ∈ ps) (hty : p.ty = "RZ_BORROW RzILOpPure *") :
+    (run b.items).rawMoves p.name ≤ 1 := by
+  rw [linearProblems_eq, hh] at h
+  have := paramProblems_nil _ _ (List.append_eq_nil_iff.mp h).2 p hp hty
+  simpa [HeapState.rawMoves, run_moves] using this
 
 -- non-vacuity (tests, labelled as tests): a linear body and a non-linear one
 example : linearProblems { header := none, items :=
